@@ -3751,8 +3751,12 @@ where
       if let Some(r) = rule_from_ident(self.state.cddl, ident) {
         // Check for recursion to prevent stack overflow
         if self.state.visited_rules.contains(&visited_key) {
-          // We've already validated this rule in the current validation path
-          // This is a recursive reference, so we allow it and assume it's valid
+          // The rule refers back to itself without consuming any input: such a
+          // reference cycle matches nothing (as in the JSON validator)
+          self.add_error(format!(
+            "Recursive rule reference detected: {}. This may indicate a circular definition in the CDDL schema.",
+            ident.ident
+          ));
           return Ok(());
         }
 
@@ -3769,6 +3773,10 @@ where
       // 2.2.2). Such a choice has no base rule for `rule_from_ident` to find.
       if !type_choice_types_from_ident(self.state.cddl, ident).is_empty() {
         if self.state.visited_rules.contains(&visited_key) {
+          self.add_error(format!(
+            "Recursive rule reference detected: {}. This may indicate a circular definition in the CDDL schema.",
+            ident.ident
+          ));
           return Ok(());
         }
 
